@@ -47,9 +47,24 @@ class WaitWalker(pathwalk.Walker):
                 elif 'SetCallback' in names:
                     st.events.append(('register-pass', loc))
             elif last == 'SubEqual':
-                st.events.append(('subequal-call', fn.text(n['args'][0]), loc))
+                st.events.append(('subequal-call', fn.text(n['args'][0]), loc, self.arg_kind(fn, n['args'][0])))
             elif last in ('compare_exchange_strong', 'compare_exchange_weak'):
                 st.events.append(('cas-call', fn.sn(n['args'][1]).get('v'), loc))
+
+    @staticmethod
+    def arg_kind(fn, i):
+        """'pos' (provably >= 1), ('var', id) (a local whose sign the path conditions decide) or None"""
+        a = fn.sn(i)
+        if a.get('v') is not None:
+            return 'pos' if isinstance(a['v'], int) and a['v'] >= 1 else None
+        if a['k'] == 'DeclRefExpr' and a.get('id') is not None:
+            return ('var', a['id'])
+        if a['k'] == 'BinaryOperator' and a['op'] == '+':
+            for c in a['ch']:
+                v = fn.sn(c).get('v')
+                if isinstance(v, int) and v >= 1:
+                    return 'pos'  # unsigned (already complete) + 1
+        return None
 
     def on_edge(self, fn, ci, taken, st):
         c = fn.sn(ci)
@@ -59,6 +74,28 @@ class WaitWalker(pathwalk.Walker):
             c = fn.sn(c['ch'][0])
         truth = taken != neg
         last = c.get('cn', '').split('::')[-1]
+        # sign of a local: x != 0, x == 0, x > 0, 0 < x, x >= 1, plain x
+        if c['k'] == 'DeclRefExpr' and c.get('id') is not None:
+            st.events.append(('nz', c['id'], truth))
+        elif c['k'] == 'BinaryOperator' and c['op'] in ('==', '!=', '>', '<', '>=', '<='):
+            l, r = fn.sn(c['ch'][0]), fn.sn(c['ch'][1])
+            op = c['op']
+            if l.get('v') is not None and r['k'] == 'DeclRefExpr':
+                l, r = r, l
+                op = {'>': '<', '<': '>', '>=': '<=', '<=': '>='}.get(op, op)
+            if l['k'] == 'DeclRefExpr' and l.get('id') is not None and r.get('v') is not None:
+                v = r['v']
+                nz = None
+                if v == 0 and op in ('!=', '>'):
+                    nz = truth
+                elif v == 0 and op in ('==', '<='):
+                    nz = not truth
+                elif v == 1 and op == '>=':
+                    nz = truth
+                elif v == 1 and op == '<':
+                    nz = not truth
+                if nz is not None:
+                    st.events.append(('nz', l['id'], nz))
         if last == 'SubEqual':
             st.events.append(('zero', truth))
         elif last == 'Wait':
@@ -77,7 +114,7 @@ class WaitWalker(pathwalk.Walker):
 
 
 def run(ctx):
-    fbs = ctx.facts(['K17', 'K20'], kinds=('probe', 'lib'), only=r'p_async\.cpp$|p_coro\.cpp$|src/algo|src/util|src/async')
+    fbs = ctx.facts(['K17', 'K20'], kinds=('probe', 'lib'), only=r'p_async\.cpp$|p_coro\.cpp$|src/algo|src/util|src/async', tests=r'/test/')
     rr = ctx.rule('R-WAITRETURN', 'WaitRange returns only when no producer can still touch the stack event: after the '
                   'reset pass either every registration was withdrawn / the counter reached zero, or the untimed wait '
                   'has returned', minimum=6)
@@ -111,7 +148,21 @@ def run(ctx):
                 if 'reset-pass' in names:
                     i = names.index('reset-pass')
                     after = ev[i + 1:]
-                    safe = ('reset-all', True) in after or ('zero', True) in after or \
+                    last_zero = None  # the waiter's own subtraction found zero: it is the last one only if it
+                    for j, e in enumerate(after):  # subtracted something
+                        if e == ('zero', True):
+                            sub = [x for x in after[:j] if x[0] == 'subequal-call']
+                            kind = sub[-1][3] if sub else None
+                            last_zero = kind == 'pos' or (isinstance(kind, tuple) and ('nz', kind[1], True) in ev)
+                            if not last_zero:
+                                ctx.report(rr, key, sub[-1][2] if sub else f.where,
+                                           'the counter is tested for zero by subtracting a number that can be 0 on '
+                                           'this path: zero then means a producer brought it there and may still be '
+                                           'inside Set() on this (returning) stack frame',
+                                           'instantiation: ' + f.full[:300])
+                    if last_zero is False:
+                        break
+                    safe = ('reset-all', True) in after or last_zero or \
                         any(e[0] == 'wait' and e[1] == 'untimed' for e in after)
                     if not safe:
                         ctx.report(rr, key, f.where, 'a timed wait returns after its deadline while a producer that was '
